@@ -48,6 +48,8 @@ structure Obs where
   contacts : List (String × Int) := []
   chunk : Option Int := none
   pending : Option Int := none
+  /-- expiry of the manifest the node has currently adopted for the chunk (its cache entry), while unexpired -/
+  manifest : Option Int := none
   deriving Repr, DecidableEq
 
 /-- deadlines that are present in `new` and were not there (with that value) in `old`:
@@ -73,6 +75,17 @@ def judge (E wall minS maxS : Int) (old new : Obs) (unchanged : Bool) : Option S
       match (created old new).find? (fun sd => ¬ Capped wall maxS sd.2) with
       | some sd => some s!"cap:{sd.1.name} exceeds now+max_ttl by {sd.2 - (wall + maxS * nsPerS)} ns"
       | none => none
+
+/-- verdict on the cached key shares at any moment: they are the shares of the manifest the node
+    last adopted for the chunk (manifest and shares are always replaced together), so they must not
+    be kept beyond *that* manifest's expiry — also when an earlier, longer-lived manifest for the same
+    chunk id had been adopted before -/
+def judgeShares (o : Obs) : Option String :=
+  match o.shard, o.manifest with
+  | some d, some E =>
+    if NotAfterManifest E d then none
+    else some s!"derived:key-shares outlive the manifest they were last adopted from by {d - E} ns"
+  | _, _ => none
 
 /-- verdict on a pending-fetch entry seen after a scheduler pass at wall time `wall`: the entry of a
     manifest expiring at `E` must be gone at/after `E`, and must not have been dispatched at/after `E` -/
